@@ -207,7 +207,8 @@ class kFlowDecomp(pathmodel.AbstractPathModelDAG):
         # We can apply the greedy algorithm only if 
         # - there are no edges to ignore (in the original input graph), and 
         # - the graph satisfies flow conservation
-        if self.optimize_with_greedy and len(edges_to_ignore_internal) == 0 and satisfies_flow_conservation:
+        # - the weights are not restricted to a given set (the greedy weights are not taken from it)
+        if self.optimize_with_greedy and len(edges_to_ignore_internal) == 0 and satisfies_flow_conservation and solution_weights_superset is None:
             if self._get_solution_with_greedy():
                 greedy_solution_paths = self._solution["paths"]
                 self.optimization_options["external_solution_paths"] = greedy_solution_paths
